@@ -368,6 +368,20 @@ func gen(g *core.G) {
 			g.Emit("asg " + lat.Txt(lat.EnumText(true, vs)).String() + " " + s(lat.EnumRaw(false, vs...)))
 		}
 	}
+	// NewStringType with the bounds as given (model: mkStrRaw): a negative minimum is clamped BEFORE the test for the default range, so
+	// String[Integer[-3, default]] is the default String: equal to it, accepting the Enums and Patterns it accepts (seeded change C03-s7)
+	for _, b := range [][2]int64{{-3, lat.MaxI}, {-1, lat.MaxI}, {lat.MinI, lat.MaxI}, {0, lat.MaxI}, {-2, 5}, {-7, 0}, {1, lat.MaxI}, {2, 5}} {
+		t := lat.StrRaw(b[0], b[1])
+		g.Emit("eq " + s(t) + " " + s(lat.CanonStr(t)))
+		g.Emit("eq " + s(lat.CanonStr(t)) + " " + s(t))
+		g.Emit("eq " + s(t) + " " + s(lat.Atom("str")))
+		for _, o := range []lat.Ty{lat.Atom("str"), lat.Enum(false), lat.Enum(false, "ab", "c"), lat.Pat("a"), lat.StrVal("ab"), lat.StrSz(0, 5), lat.CanonStr(t)} {
+			g.Emit("asg " + s(t) + " " + s(o))
+			g.Emit("asg " + s(o) + " " + s(t))
+		}
+		g.Emit("trans " + s(lat.Atom("str")) + " " + s(t) + " " + s(lat.Enum(false)))
+		g.Emit("asg " + s(lat.Arr(t, 0, 3)) + " " + s(lat.Arr(lat.Atom("str"), 0, 3)))
+	}
 	// equality across the universe (mostly false; equal-but-different terms are what matters)
 	for i := 0; i < 2000*g.Scale; i++ {
 		g.Emit("eq " + s(pick(u1)) + " " + s(pick(u1)))
